@@ -314,9 +314,9 @@ def deltaReply (rows : List ReplyRow) (tsCol : String) (window : Option (Int × 
      | some (lo, hi) => (lo ≤ replyInt r tsCol && replyInt r tsCol < hi) || (executing && replyInt r "is_executing" == 1)
      | none => false) || extra.contains (replyInt r "last_check")
 
-def scanColumns (byLastCheck : Bool) : List String :=
+def scanColumns (byLastCheck hasLastUpdate : Bool) : List String :=
   ["last_check", "scheduled_downtime_depth", "acknowledged", "active_checks_enabled", "notifications_enabled", "modified_attributes"] ++
-  (if byLastCheck then ["next_check"] else [])
+  (if byLastCheck then ["next_check"] else []) ++ (if hasLastUpdate then ["last_update"] else [])
 
 /-- `checkChangedIntValues` on the scan columns -/
 def scanChanged (tab : Table) (cols : List String) (cached : Row) (reply : ReplyRow) : Bool :=
@@ -371,11 +371,17 @@ def applyDelta (w : World) (flags : Nat) (tab : Table) (cached : List Row) (repl
       | some old =>
         let luChanged := replyInt r "last_update" != old.int "last_update"
         let lcChanged := replyInt r "last_check" != old.int "last_check"
+        -- `checkChangedIntValues` over the dynamic columns of the reply
+        let intChanged := dyn.any fun col =>
+          match col.dtype with
+          | .int => checkInt8 (replyInt r col.name) != old.int col.name
+          | .int64 => replyInt r col.name != old.int col.name
+          | _ => false
         let decision : Option Bool :=       -- none = skip, some full
           if hasLU && hasLC then (if luChanged || lcChanged then some true else none)
           else if hasLU then (if luChanged then some true else none)
           else if !hasLC then some true
-          else some lcChanged
+          else some (lcChanged || intChanged)
         match decision with
         | none => rows
         | some full => rows.set i (updateRow dyn full old r)) cached)
@@ -418,7 +424,7 @@ def deltaTable (w : World) (now : Int) (p : PeerSt) (b : BackendSt) (c : Cache) 
         -- more objects than cached: Icinga2 / empty cache reload is not modelled; the peer is marked broken
         fail { p with status := .broken, lastError := "broken: got more " ++ tname ++ " than expected", cache := none } b (.failed "cache not ready")
       else
-        let cols := scanColumns byLastCheck
+        let cols := scanColumns byLastCheck ((p.flags &&& flagBit w.schema "HasLastUpdateColumn") != 0)
         let missing := ((scan.zip cached).filter fun (r, old) =>
           replyInt r "last_check" < threshold && scanChanged tab cols old r).map (fun (r, _) => replyInt r "last_check")
         let missing := (missing.mergeSort (· ≤ ·)).eraseDups
